@@ -138,9 +138,9 @@ Section Oracle.
         * apply N.eqb_eq. congruence.
   Qed.
 
-  Lemma oracle_short : sh_agrees sh st -> spec_short hashes o = true.
+  Lemma oracle_short : sh_covers sh st -> spec_short hashes o = true.
   Proof.
-    intros A. pose proof (k_keys _ _ _ K) as Kk.
+    intros A.
     unfold spec_short, short_failures.
     assert (X : filter (short_fail (o_walk o)) (combine hashes (o_short o)) = []).
     { rewrite o_walk_keys. unfold o. cbn [observe o_short].
@@ -150,10 +150,23 @@ Section Oracle.
       symmetry. unfold short_fail.
       destruct (mem_n h (keys (qtx st))) eqn:M; [|reflexivity]. cbn [andb].
       apply mem_n_in in M. unfold keys in M. apply in_map_iff in M as [[h' t] [E Hin]].
-      cbn [fst] in E. subst h'. rewrite (A h t Hin). cbn [option_map].
-      assert (E2 : h = t_h t) by (unfold keyed in Kk; rewrite Forall_forall in Kk; exact (Kk _ Hin)).
-      rewrite <- E2, N.eqb_refl. reflexivity. }
+      cbn [fst] in E. subst h'. pose proof (A h t Hin) as Hne.
+      destruct (lm_get (sh h) (s_sh st)); [reflexivity|congruence]. }
     rewrite X. reflexivity.
+  Qed.
+
+  (** with [spec_base]: when no other pooled hash has the short hash of a
+      pooled [h], a non-empty lookup returns [h] itself *)
+  Lemma oracle_short_self h t :
+    sh_covers sh st -> In (h, t) (qtx st) ->
+    (forall h', In h' (keys (qtx st)) -> sh h' = sh h -> h' = h) ->
+    lm_get (sh h) (s_sh st) = Some t.
+  Proof.
+    intros A Hin Hu. pose proof (A h t Hin) as Hne.
+    destruct (lm_get (sh h) (s_sh st)) as [t'|] eqn:G; [|congruence].
+    apply lm_get_in in G. destruct (k_sh_sub _ _ _ K _ _ G) as [E1 E2].
+    assert (E : t_h t' = h) by (apply Hu; [eapply in_keys; eauto|congruence]).
+    rewrite E in E2. f_equal. eapply nodup_keys_inj; [apply (k_nodup _ _ _ K)|exact E2|exact Hin].
   Qed.
 End Oracle.
 
